@@ -6,6 +6,7 @@
 import CGV.DriverJson
 import CGV.Gen.Funcs
 import CGV.Model.Sample
+import CGV.Model.ReadCG
 open Lean CGV CGV.J
 
 def openOf' (j : Json) : Except String OpenSt :=
@@ -16,6 +17,20 @@ def openTo (s : OpenSt) : Json :=
     Json.arr (f.map fun (a, ds) => Json.arr #[nat a, Json.arr (ds.map str).toArray]).toArray]).toArray
 
 def cutTo (c : Cut) : Json := Json.arr #[nat c.a, nat c.b, str c.da, str c.db]
+
+def avalTo : AVal → Json
+  | .str s => Json.mkObj [("s", str s)]
+  | .num m e => Json.mkObj [("n", Json.arr #[int m, int e])]
+
+def attrsTo (a : Attrs) : Json := Json.arr (a.map fun (k, v) => Json.arr #[str k, avalTo v]).toArray
+
+def cgTo (g : CGGraph) : Json :=
+  let es := g.edges.toArray.qsort fun x y =>
+    let kx := (min x.a x.b, max x.a x.b); let ky := (min y.a y.b, max y.a y.b)
+    kx.1 < ky.1 || (kx.1 == ky.1 && kx.2 < ky.2)
+  Json.mkObj [("n", Json.arr (g.nodes.map fun (k, a) => Json.arr #[nat k, attrsTo a]).toArray),
+    ("e", Json.arr (es.map fun e => Json.arr #[nat (min e.a e.b), nat (max e.a e.b),
+      match e.order with | some o => nat o | none => Json.null]))]
 
 def handle (j : Json) : Except String Json := do
   let op ← (← j.getObjVal? "op").getStr?
@@ -50,6 +65,17 @@ def handle (j : Json) : Except String Json := do
       | .ok out =>
         pure (Json.mkObj [("ok", Json.mkObj [("pre", molTo pre), ("fine", molTo out.fine),
           ("coarse", Json.arr (out.coarse.map fun (k, ks) => Json.arr #[nat k, keysTo ks]).toArray)])])
+  | "readcg" =>
+    let t ← ofStr (← j.getObjVal? "s")
+    match readCG t with
+    | .ok g => pure (Json.mkObj [("ok", cgTo g)])
+    | .error e => pure (errTo e)
+  | "anno" =>
+    let t ← ofStr (← j.getObjVal? "s")
+    let d ← (← j.getObjVal? "dialect").getStr?
+    match (if d == "base" then parseBase t else parseFrag t) with
+    | .ok a => pure (Json.mkObj [("ok", attrsTo a)])
+    | .error e => pure (errTo e)
   | "sample" =>
     let frags ← fragsOf (← j.getObjVal? "frags")
     let react := fun (x : Json) => listOf (pairOf ofStr boolOf) x
